@@ -363,3 +363,29 @@ pub fn generate(schema: &Schema, operation_text: &str, tape: Vec<u16>, unique_id
     let data = w.respond(&op)?;
     Ok((op, data, w.variables(), w.stats))
 }
+
+/// Does the operation select an object-typed field whose static type has no `id` field (an
+/// interface or union) although one of its possible concrete types has one? At such a position the
+/// compiler cannot add `id`, so the runtime identifies the objects by their path unless a
+/// refinement happens to fetch the id.
+pub fn operation_has_abstract_field_without_id(schema: &Schema, operation_text: &str) -> bool {
+    fn walk(schema: &Schema, parent: &str, set: &SelectionSet) -> bool {
+        set.items.iter().any(|item| match item {
+            Selection::Field(f) => {
+                let Some(def) = schema.field(parent, &f.name) else { return false };
+                let ty = def.ty.inner_name().to_string();
+                let Some(sub) = &f.selection_set else { return false };
+                let no_static_id = schema.get_type(&ty).is_some_and(|t| t.field("id").is_none());
+                let some_possible_has_id = schema.possible_types(&ty).iter().any(|p| schema.get_type(p).is_some_and(|t| t.field("id").is_some()));
+                (no_static_id && some_possible_has_id) || walk(schema, &ty, sub)
+            }
+            Selection::InlineFragment(fr) => walk(schema, fr.type_condition.as_deref().unwrap_or(parent), &fr.selection_set),
+            Selection::FragmentSpread(_) => false,
+        })
+    }
+    let Ok(doc) = refgql::parse_executable(operation_text) else { return false };
+    doc.definitions.iter().any(|d| match d {
+        refgql::Definition::Operation(o) => schema.root_type(o.kind).is_some_and(|root| walk(schema, root, &o.selection_set)),
+        _ => false,
+    })
+}
